@@ -284,9 +284,15 @@ def plan_roundtrip(fmts, seed, tier):
         # names every one of the chosen formats can carry
         common = [c for c in gen.FRAG_NAME_CLASSES[poolfrag]
                   if all(c in gen.FRAG_NAME_CLASSES[f_] for f_ in fmts)]
+    utf8_bias = faulty and not mixed and fmt in ("uvl", "afm", "fide", "glencoe") and \
+        rng.random() < 0.25
+    if utf8_bias and "nonascii" in gen.FRAG_NAME_CLASSES[poolfrag]:
+        # documents full of multi-byte characters, and media damage that hits them
+        common = ["ident", "nonascii"] + (["quote"] if "quote" in
+                                          gen.FRAG_NAME_CLASSES[poolfrag] else [])
     pool = gen.name_pool(rng, poolfrag, rng.randint(16, 40) if cfg["size"] == "l" else
                          rng.randint(6, 14), common)
-    if rng.random() < 0.3:
+    if rng.random() < 0.3 or utf8_bias:
         cfg["nonascii_values"] = True
     lineages = []   # dict(ref, handle or None, path or None)
     path_ref = {}   # what each cleanly written path holds (as planned)
@@ -396,7 +402,8 @@ def plan_roundtrip(fmts, seed, tier):
             elif k < 0.9 and faulty and lin["path"] is not None:
                 kind = rng.choice(["bitflip", "subst", "zero_sector", "dup_sector",
                                    "drop_sector", "truncate", "utf8_break"] +
-                                  (["retype"] * 3 if fmt in ("json", "glencoe", "fide") else []))
+                                  (["retype"] * 3 if fmt in ("json", "glencoe", "fide") else []) +
+                                  (["utf8_break"] * 8 if utf8_bias else []))
                 b.op(op="CORRUPT", path=lin["path"], kind=kind, frac=rng.random(),
                      bit=rng.randint(0, 7), byte=rng.choice([0x24, 0x00, 0xff, 0x7b, 0x3c, 0x22]),
                      sector=rng.choice([16, 64]), fmt=fmt, word=rng.choice(RETYPE_WORDS))
@@ -660,11 +667,13 @@ def plan_uvl_peer(seed, tier):
     b.plan["faulty"] = faulty
     for _s in range(rng.choice([1, 1, 2])):
         b.segment(env=_seg_env(rng), disk_cfg=b.disk_cfg(buggify), cwd=rng.choice(DIRS))
-        pool = gen.name_pool(rng, "uvl", rng.randint(6, 14))
+        nonascii_bias = rng.random() < 0.3
+        pool = gen.name_pool(rng, "uvl", rng.randint(6, 14),
+                             ["ident", "nonascii", "quote"] if nonascii_bias else None)
         _canary(b, rng)
         for _d in range(rng.randint(3, 9 if tier == "quick" else 25)):
             cfg = gen.default_cfg(rng, "uvl", tier)
-            cfg["nonascii_values"] = rng.random() < 0.2
+            cfg["nonascii_values"] = rng.random() < (0.7 if nonascii_bias else 0.2)
             cfg["p_attr"] = rng.choice([0.0, 0.3, 0.7])
             cfg["agg1"] = True      # len / floor / ceil and one-argument sum / avg
             ref = gen.gen_model(rng, "uvl", pool, cfg)
@@ -701,7 +710,8 @@ def plan_uvl_peer(seed, tier):
                      expect={"kind": "any"})
                 b.op(op="CORRUPT", path=path, fmt="uvl", frac=rng.random(),
                      kind=rng.choice(["bitflip", "subst", "zero_sector", "dup_sector",
-                                      "drop_sector", "truncate", "utf8_break", "utf8_break"]),
+                                      "drop_sector", "truncate", "utf8_break", "utf8_break"] +
+                                     (["utf8_break"] * 6 if nonascii_bias else [])),
                      bit=rng.randint(0, 7), byte=rng.choice([0x24, 0, 0xff, 0x7b, 0x22]),
                      sector=rng.choice([16, 64]))
                 b.op(op="READ", fmt="uvl", path=path, pathstyle="abs")
